@@ -3,6 +3,7 @@
   the reference yields a promise specified (`PSpec`) by the reference's result on that resolvent.
 -/
 import PrologVerif.Proofs.RefineRun
+import PrologVerif.Proofs.RefineCallSim
 namespace PrologVerif.Refine
 open PrologVerif PrologVerif.VM PrologVerif.DecompileCompile PrologVerif.Activation
   PrologVerif.RefineITree PrologVerif.RefineRobinson PrologVerif.VMScoped
@@ -63,10 +64,13 @@ theorem call_user {fl : Bool} {tmpl : Term} {max : Nat} {prog : List Term} (hpro
   | some pr =>
     have harr := harr1 pr hl
     have hcl := hsome pr hl
-    have hp : p = ({ id := m.user.nextId, delayed := ((prog.filter (fun c => decide (headKey c = (functorName g, (argList g).length)))).map (fun c => Thunk.clause (clauseOf c) (argList g) K' env1 m.user.nextId)) } : Pr) := by
+    let its : List (Term × Option SLD.Alt) :=
+      (prog.filter (fun c => decide (headKey c = (functorName g, (argList g).length)))).map
+        (fun c => (c, some (SLD.Alt.clause (img σ1 π g) (ruleOf c))))
+    have hp : p = ({ id := m.user.nextId, delayed := its.map (fun it => Thunk.clause (clauseOf it.1) (argList g) K' env1 m.user.nextId) } : Pr) := by
       have : p = (clausesCall pr.clauses (argList g) K' env1 m).1 := by rw [harr]
       rw [this]
-      simp [clausesCall, freshId, hcl, List.map_map, Function.comp_def]
+      simp [its, clausesCall, freshId, hcl, List.map_map, Function.comp_def]
     have hm1 : m1 = { m with user := { m.user with nextId := m.user.nextId + 1 } } := by
       have : m1 = (clausesCall pr.clauses (argList g) K' env1 m).2 := by rw [harr]
       rw [this]; rfl
@@ -75,19 +79,87 @@ theorem call_user {fl : Bool} {tmpl : Term} {max : Nat} {prog : List Term} (hpro
       rw [hnone.2 he] at hl
       cases hl
     have hs' : SLD.solveAlts false (prog.flatMap SLD.splitClause ++ SLD.library) n' d nv
-        ((prog.filter (fun c => decide (headKey c = (functorName g, (argList g).length)))).map
-          (fun c => SLD.Alt.clause (img σ1 π g) (ruleOf c))) R' q (max - m.user.answers.length) = some r := by
+        (its.filterMap (·.2)) R' q (max - m.user.answers.length) = some r := by
+      have hfm : its.filterMap (·.2) = (prog.filter (fun c => decide (headKey c = (functorName g, (argList g).length)))).map
+          (fun c => SLD.Alt.clause (img σ1 π g) (ruleOf c)) := by
+        simp [its, List.filterMap_map, Function.comp_def]
+      rw [hfm]
       cases hcs : prog.filter (fun c => decide (headKey c = (functorName g, (argList g).length))) with
       | nil => exact absurd hcs hne
       | cons c0 cs0 =>
         rw [hcs] at hs
         simpa [List.map_map, Function.comp_def] using hs
     rw [hp, hm1]
-    refine ⟨.alts rfl (Nat.pos_iff_ne_zero.1 hst.2) ?_ hshape ?_ hs', ⟨hst.1, Nat.succ_pos _⟩, Nat.le_refl _⟩
-    · intro c hc
-      rw [List.mem_filter] at hc
-      exact ⟨hprog c hc.1, by simpa using hc.2⟩
-    · exact ⟨N, σ1, π, D, G', hN, hW1, hcg', hgr', hco', hq, hgD, rfl⟩
+    refine ⟨.alts rfl (Nat.pos_iff_ne_zero.1 hst.2) hshape ?_ hs', ⟨hst.1, Nat.succ_pos _⟩, Nat.le_refl _⟩
+    refine ⟨N, σ1, π, D, G', hN, hW1, hcg', hgr', hco', hq, hgD, ?_⟩
+    intro it hit
+    simp only [its, List.mem_map, List.mem_filter, decide_eq_true_eq] at hit
+    obtain ⟨c, ⟨hc1, hc2⟩, rfl⟩ := hit
+    exact .prog (hprog c hc1) hc2
+
+/-- the clause `call/1` compiles for the instantiated goal `g'` against the reference's frames for
+    `call(g')`: the variables of `g'` become relevant variables -/
+theorem call_item {fl : Bool} {tmpl : Term} {N : Nat} {env : Env} {σ : Subst} {π : Nat → Nat} {D : Nat → Prop}
+    {nv d : Nat} {g' : Term} (hW : SimW tmpl N env σ π D nv) (hb : bodyS fl g' = true) (hw : wfT g' = true)
+    (hgv : ∀ v, g'.hasVar v = true → RV σ D v) :
+    SimW tmpl N env σ π (fun v => D v ∨ RV σ D v) nv ∧ InD (fun v => D v ∨ RV σ D v) (qHead g') ∧
+    AltRel fl σ π (fun v => D v ∨ RV σ D v) nv d (qHead g') (qClause g')
+      (some (.frames (SLD.bodyFrames false (g'.rename π) d))) := by
+  obtain ⟨hW2, hrv2⟩ := simW_addRV hW
+  have hσg : ∀ v, g'.hasVar v = true → σ v = .var v := by
+    intro v hv'
+    obtain ⟨w, _, hwv⟩ := hgv v hv'
+    exact hW.mg.mgu.fixes hwv
+  have hπg : ∀ v, g'.hasVar v = true → π v < nv := fun v hv' => hW.bnd v (hgv v hv')
+  have himg_g : ∀ t : Term, (∀ v, t.hasVar v = true → g'.hasVar v = true) → img σ π t = t.rename π := by
+    intro t ht
+    have : t.subst σ = t.subst (fun v => .var v) := subst_congr t _ _ (fun v hv' => hσg v (ht v hv'))
+    simp only [img, this, Term.subst_id]
+  have hcv : ∀ x, CV (qClause g') x → g'.hasVar x = true := by
+    rintro x (hx | hx)
+    · exact (qHead_hasVar g' x).1 hx
+    · exact hx
+  refine ⟨hW2, fun v hv' => Or.inr (hgv v ((qHead_hasVar g' v).1 hv')), ?_⟩
+  refine .frames (fun x => π x + nv) (2 * nv) (tauC g' π nv) (clauseC_of_S (clauseS_qClause hb hw)) rfl (by omega)
+    (fun x y hx hy hxy => hW.inj x y (hgv x (hcv x hx)) (hgv y (hcv y hy))
+      (by have : π x + nv = π y + nv := hxy
+          omega))
+    (fun x u hx hu => by
+      have := hW.bnd u ((hrv2 u).1 hu)
+      show π u ≠ π x + nv
+      omega)
+    (fun x hx => by
+      have := hπg x (hcv x hx)
+      show π x + nv < 2 * nv
+      omega)
+    (by
+      show MguLike (img σ π (qHead g')) ((qHead g').rename (fun x => π x + nv)) (tauC g' π nv)
+      rw [himg_g _ (fun v hv' => (qHead_hasVar g' v).1 hv')]
+      exact tauC_mgu hπg (qHead_hasVar g'))
+    (fun s hs' => tauC_b hs')
+    (fun x hx z hz => by
+      have h1 := tauC_a (g := g') (π := π) (nv := nv) (t := .var x)
+        (fun w hw' => by simp only [Term.hasVar, beq_iff_eq] at hw'; subst hw'; exact hcv _ hx)
+      simp only [Term.rename, Term.subst] at h1
+      rw [h1] at hz
+      simp only [Term.hasVar, beq_iff_eq] at hz
+      subst hz
+      exact hπg x (hcv x hx))
+    ?_
+  show Forall2 _ (SLD.conjuncts g') (SLD.bodyFrames false (g'.rename π) d)
+  simp only [SLD.bodyFrames, Bool.false_eq_true, if_false, conjuncts_rename, List.map_map]
+  have key : ∀ Bs : List Term, (∀ bg ∈ Bs, ∀ v, bg.hasVar v = true → g'.hasVar v = true) →
+      Forall2 (fun bg fr => ∃ l, fr = SLD.Frame.goal ((bg.rename (fun x => π x + nv)).subst (tauC g' π nv)) l ∧
+        (bg = .atom "!" → l = d)) Bs (Bs.map ((fun x => SLD.Frame.goal x d) ∘ Term.rename π)) := by
+    intro Bs
+    induction Bs with
+    | nil => intro _; exact .nil
+    | cons bg Bs ih =>
+      intro hB
+      refine .cons ⟨d, ?_, fun _ => rfl⟩ (ih (fun b hb' => hB b (by simp [hb'])))
+      simp only [Function.comp]
+      rw [tauC_a (fun v hv' => hB bg (by simp) v hv')]
+  exact key _ (fun bg hbg v hv' => conjuncts_vars hbg hv')
 
 theorem cont_run {fl : Bool} (tmpl : Term) (max : Nat) (prog : List Term) (hprog : ∀ c ∈ prog, clauseS fl c = true) :
     ∀ (fuel : Nat) (K : Cont) (env : Env) (m : MS) (p : Pr) (m1 : MS),
@@ -218,9 +290,19 @@ theorem cont_run {fl : Bool} (tmpl : Term) (max : Nat) (prog : List Term) (hprog
         rw [hix, solve_call1 _ _ _ _ _ _ _ _ _ (fl := fl) (by rw [bodyS_rename]; exact hb)
           (by rw [wfT_rename]; exact hw) hrnv] at hs
         rw [hp, hm1]
-        refine ⟨.callp (c := g'.rename π) rfl (Nat.pos_iff_ne_zero.1 hst.2) hw hb
-          ⟨N, σ1, π, D, G', hN, hW1, hcg', hgr1, hco', hq1, fun v hv' => by rw [hg'] at hv'; exact vars_subst_rv hxD hv', rfl⟩
+        -- the variables of the instantiated goal become relevant
+        have hgv : ∀ v, g'.hasVar v = true → RV σ1 D v := fun v hv' => by rw [hg'] at hv'; exact vars_subst_rv hxD hv'
+        obtain ⟨hW2, hgD2, hitem⟩ := call_item (fl := fl) (d := d) hW1 hb hw hgv
+        have hgr2 : GRel lv σ1 π (fun v => D v ∨ RV σ1 D v) G' R' :=
+          hgr1.step_id (fun v hv' => Or.inl hv') (fun _ _ => rfl)
+        refine ⟨.alts (its := [(qClause g', some (.frames (SLD.bodyFrames false (g'.rename π) d)))])
+          (g := qHead g') rfl (Nat.pos_iff_ne_zero.1 hst.2) (qHead_shape g')
+          ⟨N, σ1, π, _, G', hN, hW2, hcg', hgr2, hco', hq1, hgD2, ?_⟩
           (by simpa [SLD.bodyFrames] using hs), ⟨hst.1, Nat.succ_pos _⟩, Nat.le_refl _⟩
+        intro it hit
+        simp only [List.mem_singleton] at hit
+        subst hit
+        exact hitem
     have hshape := shape_of_hornGoal hhg
     rcases hornGoal_shape hhg with ⟨fn, rfl, hfn⟩ | ⟨a, b, rfl⟩ | ⟨fn, as, rfl, hu, _⟩
     · -- an atom: `true` or a user predicate
